@@ -8,13 +8,14 @@
  * per process), (c) at the end no SDK allocation stays live. */
 #include "anchor_fix.h"
 #include <ksi/signature_builder.h>
+#include <ksi/impl/policy_impl.h>
 
 #define NCAN 4
 #define NSLOT 3
 #define MAXLEN 6
 
-enum { P_INTERNAL = 0, P_USERPUB, P_PUBFILE, P_KEY, P_CALENDAR, P_GENERAL, P_NPOL };
-static const char *PNAME[P_NPOL] = {"internal", "userpub", "pubfile", "key", "calendar", "general"};
+enum { P_INTERNAL = 0, P_USERPUB, P_PUBFILE, P_KEY, P_CALENDAR, P_GENERAL, P_FALLBACK, P_NPOL };
+static const char *PNAME[P_NPOL] = {"internal", "userpub", "pubfile", "key", "calendar", "general", "userpub-then-internal"};
 enum { D_NONE = 0, D_MATCH, D_OTHER, D_NDOC };
 static const char *DNAME[D_NDOC] = {"none", "matching", "other"};
 #define NLEVEL 4
@@ -29,6 +30,14 @@ static const KSI_Policy *policy_of(int p) {
 		case P_PUBFILE: return KSI_VERIFICATION_POLICY_PUBLICATIONS_FILE_BASED;
 		case P_KEY: return KSI_VERIFICATION_POLICY_KEY_BASED;
 		case P_CALENDAR: return KSI_VERIFICATION_POLICY_CALENDAR_BASED;
+		case P_FALLBACK: {
+			/* a user policy with a fallback: the user-publication policy (inconclusive here: no user publication is supplied)
+			 * falling back to the internal policy (a policy object is a plain structure: rules, fallback, name) */
+			static KSI_Policy fb;
+			static int init;
+			if (!init) { fb = *KSI_VERIFICATION_POLICY_USER_PUBLICATION_BASED; fb.fallbackPolicy = KSI_VERIFICATION_POLICY_INTERNAL; init = 1; }
+			return &fb;
+		}
 		default: return KSI_VERIFICATION_POLICY_GENERAL;
 	}
 }
